@@ -493,7 +493,12 @@ def r6(ctx):
                     names.append(lits[0][:2] if lits else '?')
             elif isinstance(val, (ast.ListComp, ast.GeneratorExp)) and len(val.generators) == 1 and not val.generators[0].ifs:
                 it = val.generators[0].iter
-                seq = fold(it) if not isinstance(it, ast.Name) else eval_local(i, it.id, {'pairedEnd': paired, 'single_cell': False, 'self.sc': False}, stop_at=val)
+                if isinstance(it, ast.Attribute) and isinstance(it.value, ast.Name) and it.value.id == 'self':
+                    # an attribute the constructor set earlier on this path
+                    prev = [v_ for t_, v_, k_ in r['stores'] if t_ == src(it)]
+                    seq = fold(ast.parse(prev[-1], mode='eval').body, {'pairedEnd': paired, 'single_cell': False}) if prev else None
+                else:
+                    seq = fold(it) if not isinstance(it, ast.Name) else eval_local(i, it.id, {'pairedEnd': paired, 'single_cell': False, 'self.sc': False}, stop_at=val)
                 if isinstance(seq, (tuple, list)) and all(isinstance(x, str) for x in seq):
                     names = [x[:2] for x in seq]
             orders.add(tuple(names) if names is not None else None)
@@ -504,8 +509,16 @@ def r6(ctx):
     loops = [l for l in walk_no_nested(w) if isinstance(l, ast.For)]
     recs = w.args.args[1].arg if len(w.args.args) > 1 else '?'
     sigs = sorted(src(l.iter) for l in loops)
-    ok = sigs == [f"zip(('R1', 'R2'), {recs})", f'zip(self.handles, {recs})']
-    ctx.emit('C01-R6', ok, FQHANDLE, w, f'writer pairs records positionally: {sigs}', key='zip-pairing')
+    from . import C19
+    labs, sc_loop = C19.mate_labels(ctx)
+    joint = [l for l in loops if l is not sc_loop and isinstance(l.iter, ast.Call) and dotted(l.iter.func) == 'zip' and len(l.iter.args) == 2
+             and src(l.iter.args[0]) == 'self.handles' and src(l.iter.args[1]) == recs]
+    if labs is None or any(v is None for v in labs.values()):
+        ctx.emit('C01-R6', False, FQHANDLE, w, f'writer loops {sigs}: per-cell mate labels not evaluated', key='zip-pairing', undecided=True)
+    else:
+        ok = all(tuple(v[:2]) == ('R1', 'R2') for v in labs.values()) and src(sc_loop.iter.args[1]) == recs and len(joint) == 1
+        ctx.emit('C01-R6', ok, FQHANDLE, w, f'writer pairs records positionally: per-cell labels {labs[True]} / {labs[False]} (pairedEnd on / off), joint files zip(self.handles, {recs})' +
+                 ('' if ok else ' - the records are not paired with (R1, R2) / the open handles in order'), key='zip-pairing')
     # mode: the joint files are opened truncating exactly once, text mode
     modes = sorted({c.args[1].value for c in walk_no_nested(i) if isinstance(c, ast.Call) and dotted(c.func) == 'gzip.open' and len(c.args) > 1 and isinstance(c.args[1], ast.Constant)})
     ctx.emit('C01-R6', modes == ['wt'], FQHANDLE, i, f'joint writer open modes {modes}', key='joint-open-mode', nontrivial=False)
